@@ -24,6 +24,7 @@ type Program struct {
 	Funcs   map[string]*ssa.Function // by key (RelString(nil))
 	Specs   *Specs
 	mutGlob map[*ssa.Global]bool
+	UnknownContracts []string
 	plainErr map[string]bool // package-level errors initialised by errors.New (match only themselves)
 }
 
@@ -120,6 +121,31 @@ func LoadProgram(repo, specDir string) (*Program, error) {
 		return nil, err
 	}
 	p.Specs = sp
+	// a contract that names no function of the loaded program is a mistake (misspelt name,
+	// package alias not imported at that point of the spec file): silently ignoring it would
+	// leave the function uncontracted
+	var unknown []string
+	for key, fc := range sp.Funcs {
+		if fc.Kind != "extern" {
+			continue
+		}
+		if _, ok := p.Funcs[key]; !ok {
+			if fc.Kind == "extern" && strings.Contains(key, ".") && !strings.Contains(key, "/") && !strings.HasPrefix(key, "(") {
+				// package-level variables of func type (e.g. retry.DefaultPredicate) are addressed by qualified name
+			}
+			unknown = append(unknown, fc.Kind+" "+key+" ("+fc.Where+")")
+		}
+	}
+	sort.Strings(unknown)
+	if len(unknown) > 0 && os.Getenv("GOCV_LIST_UNKNOWN") != "" {
+		for _, u := range unknown {
+			fmt.Fprintln(os.Stderr, "contract names no function:", u)
+		}
+	}
+	p.UnknownContracts = unknown
+	if len(unknown) > 0 {
+		return nil, fmt.Errorf("contracts that name no function of the program: %s", strings.Join(unknown, "; "))
+	}
 	return p, nil
 }
 
